@@ -128,6 +128,55 @@ class CvarCase(Case):
         return {"weights": oc.value} if oc.ok else {}
 
 
+class CvarMappingCase(Case):
+    """Two cvar-constraint filters in one evaluation: each must see the failures the evaluator reported."""
+
+    family = "cvar-constraint/mapping"
+
+    def __init__(self, cid, R=3):
+        self.id, self.R = cid, R
+        self.cfg0 = make_config({
+            "variables": {"initial_values": [0.0]},
+            "realizations": {"weights": [1.0] * R, "realization_min_success": 0},
+            "nonlinear_constraints": {"lower_bounds": [-np.inf, -np.inf], "upper_bounds": [1.0, 2.0], "realization_filters": [0, 1]},
+            "realization_filters": [{"method": "cvar-constraint", "options": {"sort": 0, "percentile": 0.5}},
+                                    {"method": "cvar-constraint", "options": {"sort": 1, "percentile": 0.5}}],
+        })
+
+    def describe(self):
+        return f"two cvar-constraint filters (sort 0, sort 1), R={self.R}, failures via the objective column"
+
+    def inputs(self, env):
+        R = self.R
+        failed = [env.flag(f"failed_{i}") for i in range(R)]
+        env.assume(Or(*[Not(x) for x in failed]))
+        f = env.reals("f", (R, 1), lo=-BOUND, hi=BOUND)
+        c = env.reals("c", (R, 2), lo=-BOUND, hi=BOUND)
+        for i in range(R):
+            f[i, 0] = SR(f[i, 0].v, failed[i].t)
+        return {"failed": failed, "f": f, "c": c}
+
+    def run(self, env, inp):
+        from ropt.ensemble_evaluator import EnsembleEvaluator
+        from ropt.evaluator import EvaluatorResult
+        from .common import plugin_manager
+        ee = EnsembleEvaluator(clone_config(self.cfg0), None,
+                               lambda v, ctx: EvaluatorResult(objectives=env.arr(inp["f"]), constraints=env.arr(inp["c"])), plugin_manager())
+        (res,) = ee.calculate(env.const(np.zeros(1)), compute_functions=True, compute_gradients=False)
+        return res
+
+    def props(self, env, inp, oc):
+        if not oc.ok:
+            return [("abort_is_too_few_realizations", SB(too_few(oc.exc)))]
+        rows = vals(oc.value.realizations.constraint_weights)
+        props = []
+        half = SR(Fraction(1, 2))
+        for k in range(2):
+            bad = [SR(inp["c"][i, k].v) for i in range(self.R)]
+            props += [(f"filter{k}.{n}", p) for n, p in cvar_spec(bad, inp["failed"], half, list(rows[k]), self.R)]
+        return props
+
+
 class RoundingCase(Case):
     """B: the helper on IEEE doubles.  n successful realizations with distinct concrete values."""
 
@@ -227,6 +276,7 @@ def build_cases(tier):
         add(CvarCase, n=2, kind="constraint", bounds=b)
     for n in range(1, (12 if tier == "quick" else 40) + 1):
         add(RoundingCase, n, check_sum=(tier == "thorough" and n <= 12))
+    add(CvarMappingCase)
     add(RoundingCase, 5, 2)
     add(RoundingCase, 10, 1)
     return cases
